@@ -1787,7 +1787,7 @@ def gen_tick_plan():
         r"if running \{\s*inner\.pattern\.clone_from\(&self\.pattern\);\s*self\.canceled\.store\(false, atomic::Ordering::Relaxed\);\s*"
         r"if (?P<c_rearm>[^{]+?) \{\s*self\.should_notify\.store\(true, atomic::Ordering::Release\);\s*\}\s*"
         r"let cleared = self\.state\.cleared\(\);\s*if cleared \{\s*inner\.items = self\.items\.clone\(\);\s*\}\s*"
-        r"self\.pool\s*\.spawn\(move \|\| unsafe \{ inner\.run\(status, cleared\) \}\)\s*\}\s*Status \{ changed, running \}\s*\}", inner.strip(), re.S)
+        r"self\.pool\s*\.spawn\(move \|\| unsafe \{\s*inner\.run\(status, cleared\);?\s*\}\)\s*\}\s*Status \{ changed, running \}\s*\}", inner.strip(), re.S)
     if not mi:
         raise TranslateError("Nucleo::tick_inner has an unexpected shape")
     if mt.group("s2") not in statuses:
